@@ -8,8 +8,10 @@ open EnvM Driver.EnvCommon
 def processLine (line : String) : String :=
   processWith (fun i tr =>
     let ok := specC10 i.hooks i.reqs tr
+    -- the only class still excused is the open finding `run_end_missing_after_forced_error` (the API glue forced
+    -- the state). A rewritten end stamp is NOT excused any more (finding `end_stamp_rewritten_after_failed_teardown`
+    -- is repaired: `C10_eoeor_once_code`): it is a plain violation, whatever the requests were.
     (ok, if ok then "-"
-         else if specC10Relaxed i.hooks i.reqs tr then "run_end_missing_after_forced_error"
-         else if !noFailedTeardown i.reqs then "end_stamp_rewritten_after_failed_teardown" else "-")) line
+         else if specC10Relaxed i.hooks i.reqs tr then "run_end_missing_after_forced_error" else "-")) line
 
 end Driver.C10
